@@ -216,9 +216,17 @@ def run_direct(ctx: ShardCtx, res: ShardResult, mon: Monitor) -> None:
         if m < 0.6:
             mup = rng.choice([-1, 0, 1, 2, 3, 4, 7, 8, 30, 59, 60, 61, 3600, rng.randrange(1, 3601)])
             params['mup'] = str(mup)
+        elif m < 0.68:
+            # not a whole number of seconds: either refused, or honoured as it is written
+            mup = rng.choice([2.5, 7.68, 0.5, 4.0, 1.001])
+            params['mup'] = str(mup)
         else:
             mup = None
-        o = opts.make(params)
+        try:
+            o = opts.make(params)
+        except ValueError:
+            res.count('direct.options_refused')
+            continue
         mon.context = {'params': params, 'ref': [ref.media_duration, ref.num_media_segments, ref.segment_duration, ref.timescale]}
         try:
             t = DashTiming(now, ref, o)
